@@ -18,7 +18,19 @@ What is modelled (one line of C++ per clause, see the comments at each definitio
 * `Router::~Router`: deletes what is in `connRefs` and `m_obstacles` (the *active* objects) only;
 * checkpoint vertices (`ConnRef::m_checkpoint_vertices`, a separate id space logged in `vcreated` /
   `vfreed`): `ConnRef::setRoutingCheckpoints` deletes the connector's old vertices and creates the new
-  ones, `~ConnRef` deletes the connector's vertices.
+  ones, `~ConnRef` deletes the connector's vertices;
+* clusters (`Avoid::ClusterRef`, viscluster.cpp): the constructor takes an id from the router's common id
+  space (`Router::assignId`) and calls `Router::addCluster` → `ClusterRef::makeActive`, i.e. the cluster
+  is a member of the public list `Router::clusterRefs` at once (no action is queued, no transaction is
+  processed); `Router::deleteCluster` unlinks (`makeInactive`) and, since /repo def6b3d, deletes it;
+  `ClusterRef::setNewPoly` has no lifetime effect; `~Router` (since def6b3d) unlinks and deletes the
+  members of `clusterRefs`.  `stepOld` is the same machine with the two clauses as they were before
+  def6b3d (nothing ever freed a ClusterRef) — `Props.C15.pre_fix_router_leaks_clusters`;
+* API calls without an effect on object lifetime (`setRoutingOption/Parameter/Penalty`, fixed routes,
+  queries, output, `ShapeRef::transformConnectionPinPositions`, …) are `api*` operations: identity on the
+  state, legal exactly when the object they are called on may still be used; `ConnRef::setRoutingType`
+  with a different type ends in `Router::modifyConnector(conn)`, which queues a bare ConnChange
+  (`touchConn`).
 
 `faults` records the places where the C++ would dereference a freed object, re-enter
 `processActions` while it is iterating, or trip an assertion that guards an undocumented
@@ -83,6 +95,11 @@ structure Pin where
   cls : Nat
   deriving DecidableEq, Repr, Inhabited
 
+structure Cluster where
+  id : Id
+  active : Bool                              -- ClusterRef::m_active = member of Router::clusterRefs
+  deriving DecidableEq, Repr, Inhabited
+
 inductive Fault where
   | assertPendingAdd (o : Id)     -- router.cpp:286/690 COLA_ASSERT(no ShapeAdd/JunctionAdd queued) in deleteShape/deleteJunction
   | useAfterFree (o : Id)         -- processActions dereferences an object that has been freed
@@ -97,6 +114,7 @@ structure St where
   obst : List Obst := []
   conns : List Conn := []
   pins : List Pin := []
+  clusters : List Cluster := []              -- allocated ClusterRef objects
   actions : List Action := []                -- Router::actionList
   created : List Id := []                    -- log: every object ever allocated
   freed : List Id := []                      -- log: every `delete`, with multiplicity
@@ -134,6 +152,27 @@ inductive Op where
   | rDelJunction (id : Id)
   | rNewJunction (id pin : Id)
   | rNewConn (id : Id)
+  /-- `new ClusterRef(router, poly, id)` -/
+  | newCluster (id : Id)
+  /-- `Router::deleteCluster(cluster)` -/
+  | deleteCluster (id : Id)
+  /-- `ClusterRef::setNewPoly(poly)` -/
+  | setClusterPoly (id : Id)
+  /-- a `ConnRef` method that ends in `Router::modifyConnector(conn)` (no ConnEnd):
+      `ConnRef::setRoutingType(t)` with `t` different from the current type -/
+  | touchConn (c : Id)
+  /-- `Router::modifyConnectionPin(pin)` for an existing pin: `ShapeRef::transformConnectionPinPositions`
+      does this once per pin of the shape (after rewriting the pin's offsets and directions in place) -/
+  | touchPin (pin : Id)
+  /-- a `Router` method without lifetime effect: `setRoutingOption / setRoutingParameter / setRoutingPenalty`,
+      queries (`routingOption`, `existsOrthogonal…`, `objectIdIsUnused`, `newObjectId`), `outputInstanceToSVG` … -/
+  | apiRouter
+  /-- a `ConnRef` method without lifetime effect: `setFixedExistingRoute`, `clearFixedRoute`, `setHateCrossings`,
+      `route / displayRoute / routingType / endpointConnEnds …`, `setRoutingType` with the current type -/
+  | apiConn (c : Id)
+  /-- a `ShapeRef` / `JunctionRef` method without lifetime effect: `transformConnectionPinPositions`,
+      `setPositionFixed`, `polygon / position / attachedConnectors …` -/
+  | apiObst (o : Id)
   deriving DecidableEq, Repr, Inhabited
 
 /-! ### small queries -/
@@ -143,6 +182,8 @@ def St.hasShape (s : St) (o : Id) : Bool := s.obst.any (fun x => x.id == o && !x
 def St.hasJunction (s : St) (o : Id) : Bool := s.obst.any (fun x => x.id == o && x.junction)
 def St.hasConn (s : St) (c : Id) : Bool := s.conns.any (·.id == c)
 def St.hasPin (s : St) (p : Id) : Bool := s.pins.any (·.id == p)
+/-- the cluster is a member of `Router::clusterRefs` -/
+def St.hasCluster (s : St) (k : Id) : Bool := s.clusters.any (fun x => x.id == k && x.active)
 def St.hasAction (s : St) (t : AType) (o : Id) : Bool := s.actions.any (fun a => a.type == t && a.obj == o)
 def St.pinsOf (s : St) (o : Id) : List Pin := s.pins.filter (·.owner == o)
 def St.addFault (s : St) (f : Fault) : St := { s with faults := s.faults ++ [f] }
@@ -152,7 +193,8 @@ def Conn.attachedTo (c : Conn) (o : Id) : Bool := endOn c.src o || endOn c.dst o
 def St.attachedCount (s : St) (o : Id) : Nat := (s.conns.filter (·.attachedTo o)).length
 
 /-- every object id currently allocated -/
-def St.allocated (s : St) : List Id := s.obst.map (·.id) ++ s.conns.map (·.id) ++ s.pins.map (·.id)
+def St.allocated (s : St) : List Id :=
+  s.obst.map (·.id) ++ s.conns.map (·.id) ++ s.pins.map (·.id) ++ s.clusters.map (·.id)
 
 /-! ### the action list -/
 
@@ -227,6 +269,18 @@ def St.setCheckpoints (s : St) (c : Id) (vs : List Id) : St :=
     conns := s.conns.map (fun x => if x.id == c then { x with cps := vs } else x)
     vfreed := s.vfreed ++ s.cpsOf c
     vcreated := s.vcreated ++ vs }
+
+/-- ClusterRef::ClusterRef: `assignId`, `Router::addCluster` → `makeActive` -/
+def St.addCluster (s : St) (k : Id) : St :=
+  { s with clusters := s.clusters ++ [{ id := k, active := true }], created := s.created ++ [k] }
+
+/-- Router::deleteCluster since /repo def6b3d, and the loop body of `~Router`: `makeInactive`, `delete` -/
+def St.freeCluster (s : St) (k : Id) : St :=
+  { s with clusters := s.clusters.filter (fun x => x.id != k), freed := s.freed ++ [k] }
+
+/-- Router::deleteCluster BEFORE /repo def6b3d: `makeInactive` only — the object stays allocated -/
+def St.unlinkCluster (s : St) (k : Id) : St :=
+  { s with clusters := s.clusters.map (fun x => if x.id == k then { x with active := false } else x) }
 
 /-! ### Router::processActions -/
 
@@ -383,10 +437,11 @@ def step (s : St) (op : Op) : St :=
   | .processTransaction => s.processTransaction
   | .setTransactionUse b => { s with consolidate := b }
   | .deleteRouter =>
-    -- ~Router deletes the members of connRefs and m_obstacles, i.e. the active objects
-    -- (since /repo 448bcee ~Router sets m_consolidate_actions: pin destructors only queue)
+    -- ~Router deletes the members of connRefs, m_obstacles and (since /repo def6b3d) clusterRefs, i.e. the
+    -- active objects (since /repo 448bcee ~Router sets m_consolidate_actions: pin destructors only queue)
     let s := (s.conns.filter (·.active)).foldl (fun s c => s.freeConn c.id) s
     let s := (s.obst.filter (·.active)).foldl (fun s o => s.freeObstacle o.id) s
+    let s := (s.clusters.filter (·.active)).foldl (fun s k => s.freeCluster k.id) s
     s.closeRouter
   | .rDelConn id =>
     if !s.hasConn id then s.addFault (.notAllocated id) else s.freeConn id
@@ -394,8 +449,35 @@ def step (s : St) (op : Op) : St :=
     if !s.hasJunction id then s.addFault (.notAllocated id) else (s.freeObstacle id).removeFromQueue id
   | .rNewJunction id pin => (s.addObst id true true).addPin pin id centreCls
   | .rNewConn id => s.addConn id true
+  | .newCluster id => s.addCluster id        -- nothing queued, `processTransaction` is not called
+  | .deleteCluster id =>
+    if !s.hasCluster id then s.addFault (.notAllocated id) else s.freeCluster id
+  | .setClusterPoly id =>
+    if !s.hasCluster id then s.addFault (.notAllocated id) else s
+  | .touchConn c =>
+    if !s.hasConn c then s.addFault (.notAllocated c) else (s.enqueue .connChange c).maybeProcess
+  | .touchPin pin =>
+    if !s.hasPin pin then s.addFault (.notAllocated pin) else (s.enqueue .pinChange pin).maybeProcess
+  | .apiRouter => s
+  | .apiConn c => if !s.hasConn c then s.addFault (.notAllocated c) else s
+  | .apiObst o => if !s.hasObst o then s.addFault (.notAllocated o) else s
 
 def run (h : List Op) : St := h.foldl step init
+
+/-- The machine as the code was BEFORE /repo def6b3d: `Router::deleteCluster` only unlinked the cluster
+    from `clusterRefs`, and `~Router` never looked at that list.  Everything else is `step`. -/
+def stepOld (s : St) (op : Op) : St :=
+  if !s.alive then s else
+  match op with
+  | .deleteCluster id =>
+    if !s.hasCluster id then s.addFault (.notAllocated id) else s.unlinkCluster id
+  | .deleteRouter =>
+    let s := (s.conns.filter (·.active)).foldl (fun s c => s.freeConn c.id) s
+    let s := (s.obst.filter (·.active)).foldl (fun s o => s.freeObstacle o.id) s
+    s.closeRouter
+  | _ => step s op
+
+def runOld (h : List Op) : St := h.foldl stepOld init
 
 /-- objects the router still holds after `~Router` (never activated ⇒ never freed): a leak -/
 def St.leaked (s : St) : List Id := if s.alive then [] else s.allocated
@@ -440,6 +522,14 @@ def LegalDoc (s : St) (op : Op) : Bool :=
   | .rDelJunction id => s.hasJunction id && s.actions.isEmpty
   | .rNewJunction id pin => !s.created.contains id && !s.created.contains pin && id != pin && s.actions.isEmpty
   | .rNewConn id => !s.created.contains id && s.actions.isEmpty
+  | .newCluster id => !s.created.contains id
+  | .deleteCluster id => s.hasCluster id
+  | .setClusterPoly id => s.hasCluster id
+  | .touchConn c => s.hasConn c
+  | .touchPin pin => s.pins.any (fun p => p.id == pin && s.hasShape p.owner && !s.pendingRemove p.owner)
+  | .apiRouter => true
+  | .apiConn c => s.hasConn c
+  | .apiObst o => s.hasObst o && !s.pendingRemove o
 
 /-- **Strict legality** = documented preconditions + the restrictions that keep a history away from
     the defect classes K1–K5 found on the unchanged tree (DESIGN.md §6 C15):
@@ -469,5 +559,12 @@ def legalFrom (L : St → Op → Bool) (s : St) : List Op → Bool
 
 def LegalHist (h : List Op) : Bool := legalFrom Legal init h
 def LegalDocHist (h : List Op) : Bool := legalFrom LegalDoc init h
+
+/-- strict legality of every op of the history in the state the PRE-def6b3d machine has reached -/
+def legalFromOld (s : St) : List Op → Bool
+  | [] => true
+  | op :: rest => Legal s op && legalFromOld (stepOld s op) rest
+
+def LegalHistOld (h : List Op) : Bool := legalFromOld init h
 
 end AdaptaVerif.Model.Lifecycle
